@@ -271,7 +271,12 @@ def matrix_jobs():
         if tag in seen:
             continue
         seen.add(tag)
-        jobs.append((gpath, MATRIX_CONFIGS, tag))
+        cfgs = MATRIX_CONFIGS
+        head = open(gpath, errors="replace").read(600)
+        if "// matrix: lr-only" in head:
+            # the GLR configurations of this witness run into a recorded finding (named in its header); the LR ones stay
+            cfgs = [c for c in MATRIX_CONFIGS if "glr" not in c]
+        jobs.append((gpath, cfgs, tag))
     return jobs
 WITNESS_DIR = os.path.join(VERIF, "fixtures", "grammars")
 
